@@ -517,7 +517,7 @@ def b_c16(tier):
                       names=list(df.column_names))
                 # ... and rows can still be appended after the column
                 try:
-                    more = tuple(cell(tp, 50, c) for c, tp in enumerate(types)) + (2.5,)
+                    more = tuple(cell(tp, 5, c) for c, tp in enumerate(types)) + (2.5,)
                     df.append_rows([more])
                     check(len(df) == len(model) + 1 and list(df.read_rows([len(model)])[0]) == list(more),
                           "a row appended after append_column does not read back", expected=list(more))
